@@ -30,7 +30,7 @@ class C07(TraceCheck):
             "(in part of the histories the cursor is then moved back up into that output, so rows at and below the window's first row hold old text), 1..6 renders with arrays of height 0..H+3 from 9 representative rows per width (empty, short, full-width, two "
             "runs, plain str), cursor on any array cell, keep_last_line/hide_cursor on and off, exit; terminals 2x2..5x6; "
             "sources: TLC-generated behaviours (MC_CursorWin GenSpec) + bounded enumeration of (k, array, array) on 2x2/3x2 + "
-            "seeded random histories. distinct_nontrivial = distinct (top row, array height, terminal height, scrolled?, "
+            "identical consecutive frames + seeded random histories. distinct_nontrivial = distinct (top row, array height, terminal height, scrolled?, "
             "cache state) render transitions")
     assumptions = ("Term.tla is the reference terminal incl. scrollback; blessed emits xterm-256color sequences",
                    "array rows are at most as wide as the terminal (the statement quantifies over heights only)")
@@ -78,6 +78,17 @@ class C07(TraceCheck):
                         yield {"h": h, "w": w, "hide": n % 2, "keep": (n // 2) % 2, "pre": pre, "up": (n // 3) % 3 if n % 4 == 0 else 0,
                                "steps": [{"arr": A, "cp": [max(0, len(A) - 1), 0], "kind": "list"},
                                          {"arr": B, "cp": [0, 0], "kind": "fsarray" if n % 5 == 0 else "list"}]}
+        # the same frame rendered two or three times in a row: fitting, exactly full, taller than the screen
+        for (h, w) in [(2, 3), (3, 4), (4, 6)]:
+            L = lines_for(w)
+            for height in range(0, h + 4):
+                for pre in (0, 1, h + 1):
+                    for reps in (2, 3):
+                        n += 1
+                        arr = [L[(n + j * 3) % len(L)] for j in range(height)]
+                        cp = [max(0, height - 1 - (n % 2)), 0]
+                        yield {"h": h, "w": w, "hide": n % 2, "keep": (n // 2) % 2, "pre": pre,
+                               "steps": [{"arr": arr, "cp": cp, "kind": "list"} for _ in range(reps)]}
         # REPL-like growth: every render shows the previous array plus a few more lines (so earlier rows are row-cache
         # hits), the cursor stays in the same column on the last row; the window starts below existing output
         base_pool = lines_for(6)
@@ -107,6 +118,8 @@ class C07(TraceCheck):
                 else:
                     cp = [0, 0]
                 steps.append({"arr": arr, "cp": cp, "kind": "fsarray" if rng.random() < 0.25 else "list"})
+                if rng.random() < 0.25:      # the very same frame again (same array, same cursor)
+                    steps.append(dict(steps[-1]))
             yield {"h": h, "w": w, "hide": k % 2, "keep": (k // 2) % 2, "pre": rng.randrange(0, h + 3),
                    "up": rng.choice([0, 0, 1, 2, h]), "steps": steps}
 
